@@ -99,6 +99,15 @@ func NondetLen(lo, hi int) int {
 	return v
 }
 
+// NondetRange returns an arbitrary integer in [lo,hi].
+func NondetRange(lo, hi int) int {
+	v := int(int64(next()))
+	if v < lo || v > hi {
+		panic(AssumeFailed{})
+	}
+	return v
+}
+
 func Assume(c bool) {
 	if !c {
 		panic(AssumeFailed{})
